@@ -302,3 +302,68 @@ func FOLD_FolderFields(h *rt.H) {
 	h.Assert("events", ev.Equal(ev.Normalise(rec.Events), want))
 	h.Assert("contract", ev.Contract(rec.Events) == "")
 }
+
+type lvlT int8 // named primitive with a custom folder
+
+func (l lvlT) Fold(v structform.ExtVisitor) error { return v.OnString("lvl") }
+
+type strT string // named string with a method, used through an interface with methods
+
+func (s strT) String() string { return string(s) }
+
+type strIfaceF interface{ String() string }
+
+// FOLD_Kinds (C12, C15): kinds the struct family does not reach: arrays at top
+// level, inside generic containers and as struct fields; maps whose element type is
+// a named primitive with a custom folder, or an interface type with methods; named
+// map and slice types of these.
+func FOLD_Kinds(h *rt.H) {
+	x, y := int8(h.U8("x")), int8(h.U8("y"))
+	key := func(k string) ev.Event { return ev.Event{K: ev.Key, Str: []byte(k)} }
+	arr := func(evs ...ev.Event) []ev.Event {
+		return append(append([]ev.Event{{K: ev.ArrStart}}, evs...), ev.Event{K: ev.ArrEnd})
+	}
+	str := func(s string) ev.Event { return ev.Event{K: ev.String, Str: []byte(s)} }
+	var v interface{}
+	var want []ev.Event
+	switch h.Choose("kind", 0, 9) {
+	case 0:
+		v, want = [2]int8{x, y}, arr(sNum(int64(x)), sNum(int64(y)))
+	case 1:
+		v, want = [3]uint16{uint16(uint8(x)), 7, 8}, arr(ev.NumEvent(false, uint64(uint8(x))), ev.NumEvent(false, 7), ev.NumEvent(false, 8))
+	case 2:
+		v, want = []interface{}{[2]int8{x, y}, [1]string{"s"}}, arr(append(arr(sNum(int64(x)), sNum(int64(y))), arr(str("s"))...)...)
+	case 3:
+		v = map[string]interface{}{"a": [2]bool{true, false}}
+		want = append(append([]ev.Event{{K: ev.ObjStart}, key("a")}, arr(ev.Event{K: ev.Bool, Bits: 1}, ev.Event{K: ev.Bool, Bits: 0})...), ev.Event{K: ev.ObjEnd})
+	case 4:
+		v = struct{ A [2]int8 }{[2]int8{x, y}}
+		want = append(append([]ev.Event{{K: ev.ObjStart}, key("a")}, arr(sNum(int64(x)), sNum(int64(y)))...), ev.Event{K: ev.ObjEnd})
+	case 5:
+		v = map[string]lvlT{"k": lvlT(x)}
+		want = []ev.Event{{K: ev.ObjStart}, key("k"), str("lvl"), {K: ev.ObjEnd}}
+	case 6:
+		v = struct {
+			M map[string]lvlT
+			N map[string]lvlT `struct:",inline"`
+		}{map[string]lvlT{"k": lvlT(x)}, map[string]lvlT{"n": lvlT(y)}}
+		want = []ev.Event{{K: ev.ObjStart}, key("m"), {K: ev.ObjStart}, key("k"), str("lvl"), {K: ev.ObjEnd}, key("n"), str("lvl"), {K: ev.ObjEnd}}
+	case 7:
+		v = map[string]strIfaceF{"k": strT("v")}
+		want = []ev.Event{{K: ev.ObjStart}, key("k"), str("v"), {K: ev.ObjEnd}}
+	case 8:
+		v = struct {
+			L map[string]strIfaceF
+			I map[string]strIfaceF `struct:",inline"`
+		}{map[string]strIfaceF{"k": strT("v")}, map[string]strIfaceF{"i": strT("w")}}
+		want = []ev.Event{{K: ev.ObjStart}, key("l"), {K: ev.ObjStart}, key("k"), str("v"), {K: ev.ObjEnd}, key("i"), str("w"), {K: ev.ObjEnd}}
+	case 9:
+		v = []strIfaceF{strT("v"), nil}
+		want = arr(str("v"), ev.Event{K: ev.Nil})
+	}
+	var rec ev.Recorder
+	err := gotype.Fold(v, &rec)
+	h.Assert("no-error", err == nil)
+	h.Assert("events", ev.Equal(ev.Normalise(rec.Events), want))
+	h.Assert("contract", ev.Contract(rec.Events) == "")
+}
